@@ -4,11 +4,17 @@
   `sobolev*` below is the specification: |e|², |∇e|² = Σ_i (∂_i e)², |∇∇e|² = Σ_ij (∂_i∂_j e)²,
   summed over the components for a vector argument.  The theorems say that the generic
   integrand assembled by `Norm`/`SemiNorm` denotes exactly that, in every differential ring and
-  every dimension.  (That the lowered kernel denotes the same as the generic integrand is C01;
-  the kernel itself is compared with the implementation by the correspondence run.)
+  every dimension (`norm_integrand_*`, `seminorm_integrand_*`).  The second half of the file
+  composes this with C01 (`Lower.lower_sound`): the *kernel* the model returns — the integrand
+  lowered by `Lower.lower` — denotes the Sobolev integrand (`norm_kernel_sound_scalar`,
+  `norm_kernel_sound_vector`, with totality in dimension 2 and 3: `norm_kernel_scalar`,
+  `norm_kernel_vector`).  The kernel itself is compared with the implementation by the
+  correspondence run.
 -/
 import SympdeModel.Model.Norm
 import SympdeModel.Sem.DenG
+import SympdeModel.Props.C01
+import SympdeModel.Lemmas.NormLower
 namespace Sympde.Norm
 open E
 open DRing (sumN)
@@ -111,5 +117,288 @@ theorem norm_eq_seminorm_plus_lower (S : DRing K) (d : Nat) (lg : Bool) (e : E)
 example : scalarIntegrand false .h1 (sf "u" .h1)
     = add [op2 .dot (op1 .grad (sf "u" .h1)) (op1 .grad (sf "u" .h1)), mul [sf "u" .h1, sf "u" .h1]] := rfl
 example : rank 2 (add [sf "u" .h1, mul [num (-1) 1, fn "sin" (sym "x1")]]) = 0 := by decide
+
+
+/-! ### the kernels: composition with C01 (`Lower.lower_sound`)
+
+  `Norm.kernel d lg semi k arg` is what the driver request `C11 kernel …` evaluates: the assembled
+  integrand lowered by the dispatcher model `Lower.lower`.  The theorems below no longer take C01
+  on trust: the assembled integrand is well typed in the fragment of `lower_sound` whenever the
+  error expression is (Lemmas/NormLower.lean), so whatever `kernel` returns denotes — in `den`, the
+  semantics of lowered trees — the explicit Sobolev integrand of the classical value
+  `denG S d lg e 0 0` of the error expression, in every differential ring.
+
+  Hypotheses on the error expression: `Lower.WT d e = true` (the fragment of `lower_sound`: atoms,
+  `F[i]`, n-ary sums and products, the generic operators nested to any depth) and `rank d e = 0`
+  (it is a scalar). -/
+
+/-- **scalar argument, all six (kind, norm / semi-norm) combinations, d = 1, 2, 3, physical and
+    logical operators**: whatever `kernel` returns denotes the classical Sobolev integrand -/
+theorem norm_kernel_sound_scalar (S : DRing K) (d : Nat) (hd : d = 1 ∨ d = 2 ∨ d = 3)
+    (lg semi : Bool) (k : NK) (e t : E)
+    (hwt : Lower.WT d e = true) (hr : rank d e = 0) (h : kernel d lg semi k e = .ok t) :
+    ∀ i j, den S t i j = sobolevScalar S d lg semi k (denG S d lg e 0 0) := by
+  intro i j
+  have hτ : Lower.ty d e = some .s := ty_scalar_of d e hwt hr
+  have hI := ty_scalarIntegrand d semi k e hτ
+  rw [kernel_scalar d lg semi k e (ty_not_tup d e _ hτ)] at h
+  rw [Lower.lower_sound S d hd lg _ t (by simp [Lower.WT, hI]) h i j (by simp [Lower.Comp, hI]),
+    Lower.ty_indexFree S d lg _ hI i j]
+  exact norm_integrand_scalar S d lg semi k e hr (Lower.ty_indexFree S d lg e hτ)
+
+/-- … and in dimension 2 and 3 `kernel` does return a value (totality of lowering, C01) -/
+theorem norm_kernel_total_scalar (d : Nat) (hd : d = 2 ∨ d = 3) (lg semi : Bool) (k : NK) (e : E)
+    (hwt : Lower.WT d e = true) (hr : rank d e = 0) : ∃ t, kernel d lg semi k e = .ok t := by
+  have hτ : Lower.ty d e = some .s := ty_scalar_of d e hwt hr
+  have hI := ty_scalarIntegrand d semi k e hτ
+  rw [kernel_scalar d lg semi k e (ty_not_tup d e _ hτ)]
+  exact Lower.lower_total d hd lg _ (by simp [Lower.WT, hI])
+
+/-- both together (d = 2, 3): the kernel of the (semi-)norm of a scalar expression of the fragment
+    exists and denotes the classical Sobolev integrand -/
+theorem norm_kernel_scalar (S : DRing K) (d : Nat) (hd : d = 2 ∨ d = 3) (lg semi : Bool) (k : NK)
+    (e : E) (hwt : Lower.WT d e = true) (hr : rank d e = 0) :
+    ∃ t, kernel d lg semi k e = .ok t ∧
+      ∀ i j, den S t i j = sobolevScalar S d lg semi k (denG S d lg e 0 0) := by
+  obtain ⟨t, ht⟩ := norm_kernel_total_scalar d hd lg semi k e hwt hr
+  exact ⟨t, ht, norm_kernel_sound_scalar S d (Or.inr hd) lg semi k e t hwt hr ht⟩
+
+
+/-! #### vector argument
+
+  The model (like the code) hands the `Tuple` of the components to the leaf classes without lowering
+  the components, so for the parts that go through the `Tuple` (`Dot(v,v)`, `Inner(Grad v, Grad v)`)
+  the components must already be lowered scalar forms (`Lower.LS`: numbers, constants, coordinates,
+  functions, `F[i]`, sums, products, derivative chains — what error expressions "function minus
+  analytic expression" are made of, short of `pow` and elementary functions); the H2 part
+  `Σ Inner(Hessian e_i, Hessian e_i)` goes through `lower_sound` and needs `WT`/`rank = 0` instead.
+  The specification is the scalar one summed over the components. -/
+
+omit [Algebra ℚ K] in
+/-- auxiliary: Σ_{i<n+1} g i = g 0 + Σ_{i<n} g (i+1) -/
+theorem sumN_shift (n : Nat) (g : Nat → K) :
+    sumN (n + 1) g = g 0 + sumN n (fun i => g (i + 1)) := by
+  induction n with
+  | zero => simp [sumN]
+  | succ n ih => rw [sumN, ih]; simp only [sumN]; ring
+
+/-- auxiliary: a sum over the indices of the components is the sum over the list of components -/
+theorem sumN_denGNth (S : DRing K) (d : Nat) (lg : Bool) (f : K → K) (es : List E) :
+    sumN es.length (fun i => f (denGNth S d lg es i))
+      = sumList f (es.map (fun e => denG S d lg e 0 0)) := by
+  induction es with
+  | nil => simp [sumN, sumList]
+  | cons a as ih =>
+    rw [List.length_cons, sumN_shift]
+    simp only [denGNth, List.map, sumList, ih]
+
+omit [Algebra ℚ K] in
+/-- auxiliary: exchange of two finite sums -/
+theorem sumN_comm (d d' : Nat) (F : Nat → Nat → K) :
+    sumN d (fun i => sumN d' (fun j => F i j)) = sumN d' (fun j => sumN d (fun i => F i j)) := by
+  induction d with
+  | zero => simp [sumN, DRing.sumN_zero]
+  | succ n ih => simp only [sumN, ih, DRing.sumN_add]
+
+omit [Algebra ℚ K] in
+theorem sumList_add (f g : K → K) (l : List K) :
+    sumList (fun a => f a + g a) l = sumList f l + sumList g l := by
+  induction l with
+  | nil => simp [sumList]
+  | cons a as ih => simp only [sumList, ih]; ring
+
+/-- Σ e_i² over the components of a `d`-vector -/
+theorem vecSq_den (S : DRing K) (d : Nat) (lg : Bool) (es : List E) (hl : es.length = d) :
+    denG S d lg (vecSq es) 0 0 = sumList (fun a => a * a) (es.map (fun e => denG S d lg e 0 0)) := by
+  have h := norm_integrand_vector_l2 S d lg false es
+  simp only [vectorIntegrand] at h
+  rw [h]; subst hl
+  exact sumN_denGNth S es.length lg (fun a => a * a) es
+
+/-- Σ_j |∇e_j|² over the components of a `d`-vector -/
+theorem vecGradSq_den (S : DRing K) (d : Nat) (lg : Bool) (es : List E) (hl : es.length = d) :
+    denG S d lg (vecGradSq es) 0 0
+      = sumList (gradNorm2 S d lg) (es.map (fun e => denG S d lg e 0 0)) := by
+  have h := seminorm_integrand_vector_h1 S d lg es
+  simp only [vectorIntegrand] at h
+  rw [h, sumN_comm]; subst hl
+  exact sumN_denGNth S es.length lg (gradNorm2 S es.length lg) es
+
+/-- **vector argument, all six (kind, norm / semi-norm) combinations, d = 1, 2, 3, physical and
+    logical operators**: whatever `kernel` returns denotes the scalar Sobolev integrand summed over
+    the components.  `hLS` is needed for every combination except the H2 semi-norm, `hwt` for H2. -/
+theorem norm_kernel_sound_vector (S : DRing K) (d : Nat) (hd : d = 1 ∨ d = 2 ∨ d = 3)
+    (lg semi : Bool) (k : NK) (es : List E) (t : E)
+    (hLS : (k = .h2 → semi = false) → ∀ e ∈ es, Lower.LS e = true)
+    (hwt : k = .h2 → ∀ e ∈ es, Lower.WT d e = true ∧ rank d e = 0)
+    (h : kernel d lg semi k (tup es) = .ok t) :
+    ∀ i j, den S t i j
+      = sumList (sobolevScalar S d lg semi k) (es.map (fun e => denG S d lg e 0 0)) := by
+  intro i j
+  have hd1 : 1 ≤ d := by omega
+  rw [kernel_vector] at h
+  have LSl : (k = .h2 → semi = false) → Lower.LSList es = true :=
+    fun hk => Lower.LSList_of_mem (hLS hk)
+  have tyl : k = .h2 → ∀ e ∈ es, Lower.ty d e = some .s :=
+    fun hk e he => ty_scalar_of d e (hwt hk e he).1 (hwt hk e he).2
+  have hr : k = .h2 → ∀ e ∈ es, rank d e = 0 := fun hk e he => (hwt hk e he).2
+  cases k <;> cases semi <;> simp only [vectorIntegrand] at h
+  -- L2 norm, L2 semi-norm
+  · have g := lower_vecSq_good S d hd lg es (LSl (by simp)) t h
+    rw [good_scalar S d hd1 lg _ t g i j, vecSq_den S d lg es (lower_vecSq_len d lg es t h)]
+    rfl
+  · have g := lower_vecSq_good S d hd lg es (LSl (by simp)) t h
+    rw [good_scalar S d hd1 lg _ t g i j, vecSq_den S d lg es (lower_vecSq_len d lg es t h)]
+    rfl
+  -- H1 norm
+  · have hLSl := LSl (by simp)
+    obtain ⟨t2, ht2⟩ := lower_add_mem d lg _ t h (vecSq es) (by simp)
+    have hl := lower_vecSq_len d lg es t2 ht2
+    have g := lower_add_good S d lg _ t (by
+      intro a ha ta hta
+      simp only [List.mem_cons, List.not_mem_nil, or_false] at ha
+      rcases ha with rfl | rfl
+      · exact lower_vecGradSq_good S d hd lg es hLSl ta hta
+      · exact lower_vecSq_good S d hd lg es hLSl ta hta) h
+    rw [good_scalar S d hd1 lg _ t g i j]
+    simp only [denG, denGSum, vecSq_den S d lg es hl, vecGradSq_den S d lg es hl, add_zero]
+    rw [← sumList_add]; rfl
+  -- H1 semi-norm
+  · have hLSl := LSl (by simp)
+    have g := lower_vecGradSq_good S d hd lg es hLSl t h
+    have hl : es.length = d := by
+      have h' := h
+      unfold vecGradSq at h'
+      rw [Lower.lower_op2] at h'
+      simp only [bind, Except.bind] at h'
+      cases hg : Lower.lower d lg (op1 .grad (tup es)) with
+      | error e => rw [hg] at h'; cases h'
+      | ok g' =>
+        rw [Lower.lower_op1 d lg .grad (tup es) "Grad" rfl, lower_tup] at hg
+        simp only [bind, Except.bind] at hg
+        exact applyLeaf_tup_len d _ es _ g' hg
+    rw [good_scalar S d hd1 lg _ t g i j, vecGradSq_den S d lg es hl]
+    rfl
+  -- H2 norm
+  · have hLSl := LSl (by simp)
+    obtain ⟨t2, ht2⟩ := lower_add_mem d lg _ t h (vecSq es) (by simp)
+    have hl := lower_vecSq_len d lg es t2 ht2
+    have g := lower_add_good S d lg _ t (by
+      intro a ha ta hta
+      simp only [List.mem_cons, List.not_mem_nil, or_false] at ha
+      rcases ha with rfl | rfl | rfl
+      · exact lower_vecHessSq_good S d hd lg es (tyl rfl) ta hta
+      · exact lower_vecGradSq_good S d hd lg es hLSl ta hta
+      · exact lower_vecSq_good S d hd lg es hLSl ta hta) h
+    rw [good_scalar S d hd1 lg _ t g i j]
+    simp only [denG, denGSum, vecSq_den S d lg es hl, vecGradSq_den S d lg es hl,
+      vecHessSq_den S d lg es (hr rfl), add_zero]
+    rw [← sumList_add, ← sumList_add]
+    congr 1; funext a; simp only [sobolevScalar]; ring
+  -- H2 semi-norm
+  · have g := lower_vecHessSq_good S d hd lg es (tyl rfl) t h
+    rw [good_scalar S d hd1 lg _ t g i j, vecHessSq_den S d lg es (hr rfl)]
+    rfl
+
+
+/-- … and in dimension 2 and 3 `kernel` does return a value for a `d`-vector of lowered scalar
+    forms of the fragment -/
+theorem norm_kernel_total_vector (d : Nat) (hd : d = 2 ∨ d = 3) (lg semi : Bool) (k : NK)
+    (es : List E) (hl : es.length = d) (hLS : ∀ e ∈ es, Lower.LS e = true)
+    (hwt : k = .h2 → ∀ e ∈ es, Lower.WT d e = true ∧ rank d e = 0) :
+    ∃ t, kernel d lg semi k (tup es) = .ok t := by
+  have hd3 : d = 1 ∨ d = 2 ∨ d = 3 := Or.inr hd
+  have hd1 : d ≠ 1 := by omega
+  have hLSl := Lower.LSList_of_mem hLS
+  have hne : es ≠ [] := by intro he; subst he; simp at hl; omega
+  have tyl : k = .h2 → ∀ e ∈ es, Lower.ty d e = some .s :=
+    fun hk e he => ty_scalar_of d e (hwt hk e he).1 (hwt hk e he).2
+  have T1 := lower_vecSq_total d hd3 lg es hLSl hl
+  have T2 := lower_vecGradSq_total d hd3 lg es hLSl hl
+  have G1 := fun t h => (lower_vecSq_good Lower.trivialRing d hd3 lg es hLSl t h).1
+  have G2 := fun t h => (lower_vecGradSq_good Lower.trivialRing d hd3 lg es hLSl t h).1
+  rw [kernel_vector]
+  cases k <;> cases semi <;> simp only [vectorIntegrand]
+  · exact T1
+  · exact T1
+  · refine lower_add_total d hd1 lg _ _ ?_ ?_ <;> intro x hx <;>
+      simp only [List.mem_cons, List.not_mem_nil, or_false] at hx <;> rcases hx with rfl | rfl
+    · exact T2
+    · exact T1
+    · exact G2
+    · exact G1
+  · exact T2
+  · have T3 := Lower.lower_ty_total d hd lg _ .s (ty_vecHessSq d es hne (tyl rfl))
+    have G3 := fun t h => (lower_vecHessSq_good Lower.trivialRing d hd3 lg es (tyl rfl) t h).1
+    refine lower_add_total d hd1 lg _ _ ?_ ?_ <;> intro x hx <;>
+      simp only [List.mem_cons, List.not_mem_nil, or_false] at hx <;> rcases hx with rfl | rfl | rfl
+    · exact T3
+    · exact T2
+    · exact T1
+    · exact G3
+    · exact G2
+    · exact G1
+  · exact Lower.lower_ty_total d hd lg _ .s (ty_vecHessSq d es hne (tyl rfl))
+
+/-- both together (d = 2, 3): the kernel of the (semi-)norm of a `d`-vector of lowered scalar
+    forms exists and denotes the scalar Sobolev integrand summed over the components -/
+theorem norm_kernel_vector (S : DRing K) (d : Nat) (hd : d = 2 ∨ d = 3) (lg semi : Bool) (k : NK)
+    (es : List E) (hl : es.length = d) (hLS : ∀ e ∈ es, Lower.LS e = true)
+    (hwt : k = .h2 → ∀ e ∈ es, Lower.WT d e = true ∧ rank d e = 0) :
+    ∃ t, kernel d lg semi k (tup es) = .ok t ∧
+      ∀ i j, den S t i j
+        = sumList (sobolevScalar S d lg semi k) (es.map (fun e => denG S d lg e 0 0)) := by
+  obtain ⟨t, ht⟩ := norm_kernel_total_vector d hd lg semi k es hl hLS hwt
+  exact ⟨t, ht, norm_kernel_sound_vector S d (Or.inr hd) lg semi k es t (fun _ => hLS) hwt ht⟩
+
+
+/-! non-vacuity of the kernel theorems: a concrete error expression `u - x y` (2D, physical
+    coordinates) and a concrete vector error `(F[0] - x, F[1])`; the hypotheses hold by evaluation,
+    the kernel is returned, and the conclusion is the textbook integrand -/
+
+/-- `u - x*y` -/
+def exErr : E := add [sf "u" .h1, mul [num (-1) 1, sym "x", sym "y"]]
+
+example : Lower.WT 2 exErr = true := by decide
+example : rank 2 exErr = 0 := by decide
+example (S : DRing K) : denG S 2 false exErr 0 0 = S.sf "u" - S.sym "x" * S.sym "y" := by
+  simp [exErr, denG, denGSum, denGProd]; ring
+
+set_option maxRecDepth 100000 in
+/-- H1 norm of `u - x y` in 2D: the model returns a kernel (by evaluation), and in every
+    differential ring it denotes (∂_x a)² + (∂_y a)² + a² with a the value of `u - x y` -/
+example (S : DRing K) :
+    ∃ t, kernel 2 false false .h1 exErr = .ok t ∧
+      den S t 0 0 =
+        S.D .x (denG S 2 false exErr 0 0) * S.D .x (denG S 2 false exErr 0 0)
+          + S.D .y (denG S 2 false exErr 0 0) * S.D .y (denG S 2 false exErr 0 0)
+          + denG S 2 false exErr 0 0 * denG S 2 false exErr 0 0 := by
+  have h : kernel 2 false false .h1 exErr = .ok _ := rfl
+  refine ⟨_, h, ?_⟩
+  rw [norm_kernel_sound_scalar S 2 (by decide) false false .h1 exErr _ (by decide) (by decide) h 0 0]
+  simp [sobolevScalar, gradNorm2, sumN, Di, Coord.ofIdx]
+
+/-- H2 semi-norm of the same expression, 3D, logical operators: existence from totality -/
+example (S : DRing K) :
+    ∃ t, kernel 3 true true .h2 exErr = .ok t ∧
+      ∀ i j, den S t i j = hessNorm2 S 3 true (denG S 3 true exErr 0 0) :=
+  norm_kernel_scalar S 3 (Or.inr rfl) true true .h2 exErr (by decide) (by decide)
+
+/-- `(F[0] - x, F[1])` -/
+def exVec : List E := [add [idx (vf "F" .h1) 0, mul [num (-1) 1, sym "x"]], idx (vf "F" .h1) 1]
+
+set_option maxRecDepth 100000 in
+/-- H2 norm of the vector `(F[0] - x, F[1])` in 2D: the kernel is returned and denotes the scalar
+    H2 integrand summed over the two components -/
+example (S : DRing K) :
+    ∃ t, kernel 2 false false .h2 (tup exVec) = .ok t ∧
+      den S t 0 0 =
+        sobolevScalar S 2 false false .h2 (denG S 2 false (exVec.getD 0 zero) 0 0)
+          + sobolevScalar S 2 false false .h2 (S.vf "F" 1) := by
+  have h : kernel 2 false false .h2 (tup exVec) = .ok _ := rfl
+  refine ⟨_, h, ?_⟩
+  rw [norm_kernel_sound_vector S 2 (by decide) false false .h2 exVec _ (fun _ => by decide)
+    (fun _ => by decide) h 0 0]
+  simp [exVec, sumList, denG]
 
 end Sympde.Norm
